@@ -179,7 +179,22 @@ def _in_section(code, ln):
     return depth > 0
 
 
+def gen_coqproject():
+    """_CoqProject lists every .v file under coq/ (sorted); rewritten only when the set changes."""
+    files = []
+    for root, dirs, fs in os.walk(COQ):
+        dirs.sort()
+        for fn in sorted(fs):
+            if fn.endswith(".v"):
+                files.append(os.path.relpath(os.path.join(root, fn), COQ))
+    txt = "-Q . RS\n" + "\n".join(sorted(files)) + "\n"
+    proj = os.path.join(COQ, "_CoqProject")
+    if (not os.path.exists(proj)) or open(proj).read() != txt:
+        open(proj, "w").write(txt)
+
+
 def coq_makefile():
+    gen_coqproject()
     proj = os.path.join(COQ, "_CoqProject")
     mk = os.path.join(COQ, "Makefile")
     if (not os.path.exists(mk)) or os.path.getmtime(mk) < os.path.getmtime(proj):
@@ -240,11 +255,32 @@ def parse_assumptions(log, names):
 
 
 # --------------------------------------------------------------------------- harness
-def harness_build(profile="debug", features=("hooks",)):
-    """Build the harness against /repo's working tree.  Returns path of the binary."""
+def harness_build(profile="debug", crate=None):
+    """Build the harness against the working tree of REPO (default /repo; VERIF_REPO overrides, used for
+    mutation testing against a scratch worktree).  Returns (path of the binary | None, build log)."""
+    hdir = os.path.join(VERIF, crate) if crate else HARNESS
+    name = "verif-harness" if not crate else "verif-" + crate.replace("_", "-")
     with Lock("cargo"):
+        if os.path.realpath(REPO) != "/repo":
+            # scratch copy of the crate whose path dependencies point at the alternative tree
+            tag = hashlib.md5(os.path.realpath(REPO).encode()).hexdigest()[:8]
+            alt = os.path.join(WORK, "alt", "%s-%s" % (os.path.basename(hdir), tag))
+            os.makedirs(os.path.join(alt, "src"), exist_ok=True)
+            os.makedirs(os.path.join(alt, ".cargo"), exist_ok=True)
+            for fn in os.listdir(os.path.join(hdir, "src")):
+                src = open(os.path.join(hdir, "src", fn)).read()
+                dst = os.path.join(alt, "src", fn)
+                if (not os.path.exists(dst)) or open(dst).read() != src:
+                    open(dst, "w").write(src)
+            ct = open(os.path.join(hdir, "Cargo.toml")).read().replace('"/repo', '"' + os.path.realpath(REPO))
+            ct = ct.replace('name = "%s"' % name, 'name = "%s-%s"' % (name, tag))
+            if (not os.path.exists(os.path.join(alt, "Cargo.toml"))) or open(os.path.join(alt, "Cargo.toml")).read() != ct:
+                open(os.path.join(alt, "Cargo.toml"), "w").write(ct)
+            open(os.path.join(alt, ".cargo", "config.toml"), "w").write("[net]\noffline = true\n")
+            hdir = alt
+            name = "%s-%s" % (name, tag)
         lock_src = os.path.join(REPO, "Cargo.lock")
-        lock_dst = os.path.join(HARNESS, "Cargo.lock")
+        lock_dst = os.path.join(hdir, "Cargo.lock")
         if os.path.exists(lock_src):
             src = open(lock_src).read()
             if (not os.path.exists(lock_dst)) or _strip_pkg(open(lock_dst).read()) != _strip_pkg(src):
@@ -252,14 +288,14 @@ def harness_build(profile="debug", features=("hooks",)):
         cmd = ["cargo", "build", "--offline", "--quiet"]
         if profile == "release":
             cmd.append("--release")
-        rc, out = sh(cmd, cwd=HARNESS, timeout=3000)
+        rc, out = sh(cmd, cwd=hdir, timeout=3000, env={"CARGO_TARGET_DIR": os.path.join(HARNESS, "target")})
         if rc != 0:
             return None, out
-        return os.path.join(HARNESS, "target", profile, "verif-harness"), out
+        return os.path.join(HARNESS, "target", profile, name), out
 
 
 def _strip_pkg(s):
-    return re.sub(r'\[\[package\]\]\nname = "verif-harness".*?\n\n', "", s, flags=re.S)
+    return re.sub(r'\[\[package\]\]\nname = "verif-harness[^"]*".*?\n\n', "", s, flags=re.S)
 
 
 def run_harness(binary, command, lines, shards=NCPU, timeout=600, workdir=None):
